@@ -294,7 +294,7 @@ pub fn run(ctx: &mut Ctx) {
         let cases = ctx.cases(1200, 10);
         let st = (gen::owned_spec(id, max), vec(any::<u16>(), 0..4)).prop_map(move |(s, counts)| ImgCase { codec: id, s, counts });
         ctx.forall(&format!("word_image/{}", id.name()), cases, st, image_dispatch);
-        let lens = gen::long_lens(ctx.thorough(), ctx.seed);
+        let lens = gen::long_lens_bits(id.bits(), ctx.thorough(), ctx.seed);
         ctx.forall_lens(&format!("word_image_long/{}", id.name()), &lens, |n| gen::owned_spec_n(id, n).prop_map(move |s| ImgCase { codec: id, s, counts: vec![] }), image_dispatch);
         let cases = ctx.cases(300, 10);
         let st = vec(prop_oneof![3 => any::<u64>(), 1 => Just(0u64), 1 => Just(u64::MAX)], 0..=4).prop_map(move |words| RawCase { codec: id, words });
